@@ -175,6 +175,27 @@ func (h *RealtimeHandler) HandleParticipantJoin(ctx context.Context, handleFrame
 		return nil
 	}
 
+	var participant *models.Participant
+	if ok {
+		// The session found can end at any moment, with the departure of its
+		// last participant, until the participant is in it: the place is
+		// taken before the current session is left.
+		participant = &models.Participant{
+			ID:            session.NewParticipantID(),
+			Responder:     respond,
+			SignedLatency: &models.SignedLatency{},
+		}
+		if !session.AddParticipant(participant) {
+			respond.Send(&hagallpb.ErrorResponse{
+				Type:      hagallpb.MsgType_MSG_TYPE_ERROR_RESPONSE,
+				Timestamp: timestamppb.Now(),
+				RequestId: req.RequestId,
+				Code:      hagallpb.ErrorCode_ERROR_CODE_NOT_FOUND,
+			})
+			return nil
+		}
+	}
+
 	if h.currentParticipant != nil {
 		h.leaveSession()
 	}
@@ -182,6 +203,15 @@ func (h *RealtimeHandler) HandleParticipantJoin(ctx context.Context, handleFrame
 	if !ok {
 		session = models.NewSession(h.Sessions.NewID(), h.FrameDuration)
 		session.AppKey = h.appKey
+
+		// The creator is in the session before anyone can find it.
+		participant = &models.Participant{
+			ID:            session.NewParticipantID(),
+			Responder:     respond,
+			SignedLatency: &models.SignedLatency{},
+		}
+		session.AddParticipant(participant)
+
 		if err := h.Sessions.Add(ctx, session); err != nil {
 			respond.Send(&hagallpb.ErrorResponse{
 				Type:      hagallpb.MsgType_MSG_TYPE_ERROR_RESPONSE,
@@ -194,13 +224,6 @@ func (h *RealtimeHandler) HandleParticipantJoin(ctx context.Context, handleFrame
 		go session.StartDispatchFrames()
 	}
 
-	participant := &models.Participant{
-		ID:            session.NewParticipantID(),
-		Responder:     respond,
-		SignedLatency: &models.SignedLatency{},
-	}
-
-	session.AddParticipant(participant)
 	h.stopFrameHandling = session.HandleFrame(handleFrame)
 
 	respond.Send(&hagallpb.ParticipantJoinResponse{
@@ -1021,7 +1044,7 @@ func (h *RealtimeHandler) leaveSession() {
 	if h.stopFrameHandling != nil {
 		h.stopFrameHandling()
 	}
-	session.RemoveParticipant(participant)
+	last := session.RemoveParticipant(participant)
 
 	h.FeatureFlags.IfNotSet(featureflag.FlagDisableParticipantLeaveBroadcast, func() {
 		session.Broadcast(participant, &hagallpb.ParticipantLeaveBroadcast{
@@ -1032,7 +1055,7 @@ func (h *RealtimeHandler) leaveSession() {
 		})
 	})
 
-	if session.ParticipantCount() == 0 {
+	if last {
 		// Here we use a context.Background to ensure the session to be deleted
 		// on the session discovery service (eg HDS).
 		h.Sessions.Remove(context.Background(), session)
